@@ -39,3 +39,9 @@ for pid, why in (("C11", "bounded stand-in: TimelineBuilderArguments::from is ve
                  ("C17", "bounded over programs: contract harnesses on the real derive expansion for four struct shapes, every value symbolic; from_keyframes itself is proved for every size (Verus)")):
     P[pid]["level"] = "other"
     P[pid]["explanation"] = why
+for pid, why in (("C15", "bounded over sentences: timeline! is compared with the documented builder chain on rustc's real expansion for a family of sentences covering every grammar production; compile-time rejection of ill-formed sentences is not covered"),
+                 ("C16", "bounded over sentences: animator! is compared with StateAnimatorBuilder on rustc's real expansion for a family of blocks covering every production; behaviour over histories is C04/C05's (any animator the builder produces)")):
+    P[pid] = {"assumptions": [A["KANI"], "the macro's own code (syn parser + quote! emitter) is not within reach of the verifiers; its OUTPUT for each sentence is what is verified",
+                              "from_keyframes replaced by a capturing stub, so structural equality of what the two timelines were built from is what is compared"],
+              "trusted_base": TB_K, "level": "other", "explanation": why,
+              "not_decided": ["sentences outside the family", "that ill-formed sentences (unknown suffix, missing %, non-integer repeat, keyframe without braces) are rejected at compile time: a harness cannot contain code that does not compile"]}
